@@ -1175,3 +1175,53 @@ func c19refusalIsNotSuccess(c *an.Ctx) {
 	r.AddSites(n)
 	r.Floor(1, "boolean helpers that write an error status")
 }
+
+func init() {
+	old := All["C19"].Run
+	All["C19"].Run = func(c *an.Ctx) {
+		old(c)
+		c19opsWrapperReturnsAfterRefusal(c)
+	}
+	All["C19"].Rules += " R16"
+	addLevel("C19", "The authentication wrapper of the ts-meta and ts-store operation endpoints (lib/httpserver.Authenticate) returns after every refusal it writes: no credential transport reaches the wrapped handler through an error branch.")
+}
+
+// c19opsWrapperReturnsAfterRefusal — C19.R16.  lib/httpserver.Authenticate guards the ts-meta and
+// ts-store HTTP endpoints (/getdata, /debug, the POST endpoints that move partitions and switch
+// takeover/balancing).  Its switch over the credential method has a case for user/password only, so
+// the default arm is reachable with a bearer token; every arm that writes an error must return
+// before the wrapped handler is called (C19.R5 checks the same for the ts-sql wrapper).
+func c19opsWrapperReturnsAfterRefusal(c *an.Ctx) {
+	const HS = "lib/httpserver"
+	r := c.Rule("C19.R16", "K-ORDER(never-after)", HS+":Authenticate — after an error response was written the wrapped handler is never called")
+	f := fn(r, HS+":Authenticate")
+	herrObj := obj(r, "lib/util/lifted/influx/httpd:HttpError")
+	if f == nil || herrObj == nil {
+		return
+	}
+	lits := f.FindLits()
+	if len(lits) == 0 || len(f.Params) == 0 {
+		r.Fail(f.Name+": closure", c.P.Pos(f.Body.Pos()), "Authenticate no longer returns a handler closure over its first parameter")
+		return
+	}
+	g := f.Lit(lits[0], "handler")
+	call := g.Find(an.MCallVar("inner handler", f.Params[0]))
+	herr := g.Find(an.MCall("httpd.HttpError", herrObj))
+	r.AddSites(call.Len() + herr.Len())
+	if call.Len() < 1 || herr.Len() < 3 {
+		r.Fail(f.Name+": shape", c.P.Pos(f.Body.Pos()), "expected calls of the wrapped handler and the error reports (found %d / %d)", call.Len(), herr.Len())
+		return
+	}
+	for _, s := range herr.List {
+		for _, t := range call.List {
+			if p := g.FPath(g.G.Vs[s.V].Succ, t.V, nil, nil); p != nil {
+				msg := ""
+				if ce, ok := s.Node.(*ast.CallExpr); ok && len(ce.Args) >= 2 {
+					msg = types.ExprString(ce.Args[1])
+				}
+				r.Fail(f.Name+": refusal then handler "+msg, c.P.Pos(s.Node.Pos()), "after the error response %s was written the wrapped handler still runs (missing return): the request is answered 401 and executed; path (lines): %s", msg, g.DescribePath(p))
+				break
+			}
+		}
+	}
+}
